@@ -381,6 +381,7 @@ pub fn report(case: &Case) -> RunReport {
     let summary = render(&x.ops);
     match &x.end {
         EndState::Completed => {},
+        EndState::Blocked { .. } => return RunReport { verdict: Verdict::Inconclusive("blocked-in-uninstrumented-wait".into()), nontrivial: false, classes, fingerprint: fp, trace: Some(x.trace), summary },
         EndState::Budget => return RunReport { verdict: Verdict::Inconclusive("step-budget".into()), nontrivial: false, classes, fingerprint: fp, trace: Some(x.trace), summary },
         EndState::Stall { stuck, .. } => {
             return RunReport { verdict: Verdict::Violation { signature: format!("{:?}/stall", case.kind), detail: format!("no thread can make progress; spinning threads {:?}; history so far: {}", stuck, summary) },
